@@ -15,6 +15,12 @@ NOT_APPLICABLE = {
     "C15": "a law over all pairs of input strings decided by an event-stream heuristic (compare_recon_values / HashParser); "
            "no path-shape rule is both necessary and robust for it, and a frozen-shape proxy would fire on behaviour-preserving "
            "refactors. The only structural fact near it (ReconKey wiring) is checked under C02.",
+    "C16": "the law quantifies over values and over the types the Form derive macro can generate. The only structural clause in reach (agreement of "
+           "the names/tags written by the generated write_with with those matched by the generated recogniser) can be evaluated only on macro expansions, "
+           "and the analysed workspace holds about ten derived types outside test code, none using most of the attribute combinations the property "
+           "enumerates; a rule over them would be vacuous for nearly all of the quantifier and a rule over the macro's source would be a text proxy. "
+           "MessagePack marker tables and a reader panic audit are checkable but are not a necessary condition strong enough to claim the property "
+           "(DESIGN.md section 9.6).",
 }
 
 PENDING_REASON = "rule pack not yet armed in this revision of /verif (static analysis planned, see DESIGN.md section 4); not claimed until it runs"
@@ -42,7 +48,7 @@ def main():
             "level_claimed": {
                 "category": "other",
                 "text": meta.get("level_text", meta.get("explanation", "")),
-                "design_ref": "DESIGN.md section 4, " + pid,
+                "design_ref": "DESIGN.md section 4 (" + pid + ") as amended by section 9.4; rule list in RULES.md",
             },
             "level_note": "Trusted base: rustc's MIR construction and callee resolution on the nightly toolchain; unwind edges are ignored; "
                           "allow-list reasons are correct. Decides the structural clauses named in the text, not the behavioural quantifier: "
